@@ -196,9 +196,12 @@ def _execute(case, res, T):
     core = bt.split('-')[-1]
     label = f'{bt} on {T.kind} degree {degree_label(kw)}'
     mon = cm.Mon(res, case, label)
-    if T.struct is not None and core in ('lagrange', 'bernstein') and any(T.struct['shape'][d] == 2 for d in T.struct['periodic']):
-        # structural predicate of finding F_TWOPER: connectivity-based dof merging on a periodic direction of exactly two
-        # elements (the two elements are each other's neighbour twice)
+    if T.struct is not None and core in ('lagrange', 'bernstein') and (
+            any(T.struct['shape'][d] == 2 for d in T.struct['periodic']) or sum(T.struct['shape'][d] == 1 for d in T.struct['periodic']) >= 2):
+        # structural predicate of finding F_TWOPER (mechanism: _basis_c0_structured identifies the opposite edge with
+        # util.index(connectivity[jelem], ielem), the FIRST match): connectivity-based dof merging where a pair of elements
+        # shares more than one edge -- a periodic direction of exactly two elements (neighbours twice), or one element that
+        # is its own neighbour in two or more periodic directions
         mon.mechanism = F_TWOPER
 
     # ---- documented-interface model of the parameters (where one exists)
